@@ -158,7 +158,7 @@ Admissible(t) ==
     /\ t.meta >= 0 /\ t.meta <= 65535                                           \* TraceInfo::MAX_META_LENGTH
     /\ t.lag \in {0, 1} /\ (t.lag = 1 => NAux(t) >= 1)                          \* the context wants one auxiliary constraint
     /\ TotalWidth(t) <= 255 /\ t.auxr >= 0 /\ t.auxr <= 255 /\ (AuxW(t) = 0 => t.auxr = 0)
-    /\ \A j \in 1..NAux(t) : t.auxd[j] \in {1, 2} /\ AuxMinBlowup(t, j) <= B(t)
+    /\ \A j \in 1..NAux(t) : t.auxd[j] >= 1 /\ AuxMinBlowup(t, j) <= B(t)       \* degree 1 (running sum), d >= 2 (running product of (m + r)^(d-1))
     /\ t.nauxa >= (IF NAux(t) > 0 THEN 1 ELSE 0) /\ t.nauxa <= MaxAuxAsserts(t)
     /\ WellFormedSchedule(t)
     /\ t.q < Lde(t)                                                              \* fewer queries than LDE points
